@@ -19,6 +19,9 @@ fn raw_corpus() -> Vec<(&'static str, String)> {
         ("sugar", super::c18::pair_program("(s1, s2) <== TO2()(a);\n    signal u <== T2(n)(in1 <-- a * a * b, in2 <== b);\n    log(\"v\", u);")),
         ("arrows", super::c08::build(&[(0, 1), (3, 2), (9, 0), (11, 0)], 0).text),
         ("shadow", "pragma circom 2.0.0;\nfunction F(a, b) {\n    var y = 0;\n    if (a > 0) {\n        var y = 1;\n        return y;\n    }\n    return a + y;\n}\ntemplate S(n) {\n    signal input in;\n    signal output out;\n    var x = 0;\n    for (var i = 0; i < n; i++) {\n        var x = i;\n        x += 1;\n    }\n    out <-- in * x;\n}\n".to_string()),
+        ("params", "pragma circom 2.0.0;\nfunction F(k, r, unused) {\n    k = r + 1;\n    return r;\n}\ntemplate P(n, m, spare) {\n    signal input in;\n    signal output out;\n    n = 0;\n    var t = m;\n    t = t + 1;\n    out <== in * m;\n}\n".to_string()),
+        // A file without any token: with a decoration it is a comment-only file.
+        ("empty", "\n".to_string()),
         ("errors", super::c03::CORPUS[3].1.to_string()),
         ("parse-error", "pragma circom 2.0.0;\ntemplate P() {\n    signal input in;\n    signal output out;\n    out <== in +;\n}\n".to_string()),
         ("bad-sugar", "pragma circom 2.1.0;\ntemplate Q() {\n    signal input in;\n    signal output out;\n    (out, in) <== (1, 2, 3);\n}\nfunction G(a) {\n    var (p, q) = (a, a);\n    return p;\n}\n".to_string()),
@@ -91,8 +94,9 @@ pub fn by_text(f: &Finding) -> String {
 /// Form of a finding including byte positions (paths excluded).
 pub fn by_position(f: &Finding) -> String {
     // Labels are compared as sets: their order inside a finding is not part of the finding.
-    let labels = |ls: &Vec<runner::LabelInfo>| sorted(ls.iter().map(|l| format!("<{}..{}>", l.start, l.end)).collect()).join("");
-    format!("{} [{}] {} P{} S{}", f.id, f.level, f.message, labels(&f.primary), labels(&f.secondary))
+    // (The label messages are part of what the user reads: generated names appear there.)
+    let labels = |ls: &Vec<runner::LabelInfo>| sorted(ls.iter().map(|l| format!("<{}..{}|{}>", l.start, l.end, l.message)).collect()).join("");
+    format!("{} [{}] {} P{} S{} N{:?}", f.id, f.level, f.message, labels(&f.primary), labels(&f.secondary), f.notes)
 }
 
 pub fn sorted(mut v: Vec<String>) -> Vec<String> {
